@@ -542,3 +542,29 @@ Example C07b_expanded_path_repaired_keeps_key_deleted :
   let s' := lsm_run true true MFS steps_after in
   lsm_wf_b s' = true /\ l_panic s' = false /\ db_get s' [20] = None.
 Proof. vm_compute. repeat split; reflexivity. Qed.
+
+(** * Part c: every internal step (rotation, flush, compaction, trivial move) leaves every view at or above the oldest snapshot unchanged *)
+From RainVerif.proofs Require Import SelectProofs LsmProofs.
+Open Scope N_scope.
+Theorem C07_internal_step_invisible :
+  forall mfs s st, lsm_wf_b s = true -> step_admissible s st -> internal st ->
+    forall q k, smallest_snapshot s <= q ->
+      visible (all_entries (lsm_step true true mfs s st)) q k = visible (all_entries s) q k.
+Proof. exact internal_step_invisible. Qed.
+Print Assumptions C07_internal_step_invisible.
+
+Theorem C07_internal_step_invisible_all :
+  forall mfs s st, lsm_wf_b s = true -> step_admissible s st -> internal_nomerge st ->
+    forall q k, visible (all_entries (lsm_step true true mfs s st)) q k = visible (all_entries s) q k.
+Proof. exact internal_step_invisible_all. Qed.
+Print Assumptions C07_internal_step_invisible_all.
+
+Theorem C07_db_get_unchanged :
+  forall mfs s st, lsm_wf_b s = true -> step_admissible s st -> internal st ->
+    forall q k, smallest_snapshot s <= q ->
+      db_get_at (lsm_step true true mfs s st) k q = db_get_at s k q.
+Proof. exact C07_db_get_unchanged. Qed.
+Print Assumptions C07_db_get_unchanged.
+
+(** * C03: a live snapshot keeps its view *)
+
